@@ -230,7 +230,14 @@ def _special_op(draw, form, frac, limit):
     if form == "hflex1":
         return "hflex1", nums(9)
     if form == "flex1":
-        return "flex1", nums(11)
+        a = nums(11)
+        if draw(_int(0, 2)) == 0:
+            # the tie |dx| == |dy| (the note: d6 is horizontal only when |dx| > |dy|)
+            dx = a[0] + a[2] + a[4] + a[6] + a[8]
+            a[9] = draw(_pick([1, -1])) * dx - (a[1] + a[3] + a[5] + a[7])
+            if a[10] == 0:
+                a[10] = 7
+        return "flex1", a
     raise AssertionError(form)
 
 
